@@ -19,6 +19,12 @@ Theorem C19_vector_decode_bijection : forall dim Nb, 0 < dim ->
   (forall i, i < Nb * dim <-> fst (gen_vector_decode dim i) < Nb).
 Proof. intros dim Nb Hd. split; [intros; now apply gen_vector_encode_decode | intros; now apply gen_vector_decode_range]. Qed.
 
+(* the per-entity DOF counts of ElementVector(elem, dim) are dim times those of elem for each of the four entity kinds,
+   for every component count dim and every spatial dimension edim (dim <> edim included): this is the layout
+   fun K => dim * d K that C19_split_indices_vector and C19_interp_split_vector speak about *)
+Theorem C19_vector_layout : forall (d : nat -> nat) dim edim K, K < 4 -> gen_vector_layout d dim edim K = dim * d K.
+Proof. exact gen_vector_layout_spec. Qed.
+
 (* ---------- skfem.utils.bmat: mat.blocks are the split points of the block columns ---------- *)
 Theorem C19_bmat_blocks : forall widths, bmat_domain widths -> gen_bmat_blocks widths = prefix_sums widths.
 Proof. exact gen_bmat_blocks_spec. Qed.
@@ -180,6 +186,7 @@ End C19.
 
 Print Assumptions C19_vector_decode.
 Print Assumptions C19_vector_decode_bijection.
+Print Assumptions C19_vector_layout.
 Print Assumptions C19_bmat_blocks.
 Print Assumptions C19_composite_decode.
 Print Assumptions C19_split_indices_composite.
